@@ -107,11 +107,11 @@ def check(ctx):
     PC = [{"space": "P", "sim": sim, "point": j, "chunk": [ci, nchunks], "max_points": 40 if q else None}
           for sim in (PSIMS[:4] if q else PSIMS) for j in range(2 if q else 4) for ci in range(nchunks)]
     pres = ctx.run(PC, "run_preempt", batch=1, rule="P: single preemption of one task by another ready task, for every distinct pair of task kinds that are ready together "
-                   "(first 2 pairs quick / 4 thorough), at every abTEM call event (thorough) / a uniform stride of them (quick)", space="P preemption")
+                   "(first 2 pairs quick / 4 thorough), at every abTEM call event (thorough) / the first occurrence of every distinct call site (quick)", space="P preemption")
     ctx.extra["preemption_points_run"] = sum(r.get("tr", 0) for r in pres)
     ctx.extra["preemption_call_events_per_task"] = sorted({str(r.get("calls")) for r in pres})
     if q:
-        ctx.cap("space P (quick): a uniform stride of the call events of each task is used as preemption points; the thorough tier runs every call event")
+        ctx.cap("space P (quick): the first occurrence of every DISTINCT call site of each task are used as preemption points; the thorough tier runs every call event")
     # D: free-running threads (detector only)
     th = [dict(c, reps=3) for c in sc if c["mb"] == 1 and c["ep"] is None][: (6 if q else 40)]
     ctx.run(th, "run_threads", batch=1, rule="D: free-running threaded scheduler x3 vs synchronous (race detector, sampling)", space="D threads")
@@ -295,11 +295,12 @@ def run_preempt(c):
     if c["point"] >= len(pts):
         return {"viol": [], "obs": "n/a", "nt": False, "tr": 1, "notes": ["fewer than %d distinct ready-together task-kind pairs" % (c["point"] + 1)]}
     nth, kinds = pts[c["point"]]
-    r = PR.explore_pair(execute, same, max_points=c["max_points"], nth_point=nth, chunk=tuple(c["chunk"]))
+    roles = ("A-preempted-by-B",) if kinds[0] == kinds[1] else ("A-preempted-by-B", "B-preempted-by-A")  # two tasks of one kind: the roles are symmetric
+    r = PR.explore_pair(execute, same, max_points=c["max_points"], nth_point=nth, chunk=tuple(c["chunk"]), sites=c["max_points"] is not None, roles=roles)
     viol = []
     if r["deviating"]:
         viol.append({"key": "preemption/result-depends-on-interleaving", "msg": "preempting a %s task by a %s task at call events %r changes the result (%s)" % (kinds[0], kinds[1], r["deviating"][:3], c)})
-    return {"viol": viol, "obs": "pair %r calls %r" % (kinds, r.get("calls")), "nt": bool(r.get("pair")), "tr": r["runs"], "st": r["runs"], "ref": r["runs"], "calls": "%s:%s" % ("/".join(kinds), r.get("calls"))}
+    return {"viol": viol, "obs": "pair %r calls %r" % (kinds, r.get("calls")), "nt": bool(r.get("pair")), "tr": r["runs"], "st": r["runs"], "ref": r["runs"], "calls": "%s:%s%s" % ("/".join(kinds), r.get("calls"), (" sites %s" % r.get("distinct_call_sites")) if r.get("distinct_call_sites") else "")}
 
 
 # --------------------------------------------------------------------------------------------- R
